@@ -56,6 +56,22 @@ PROPS["C14"] = {
     },
 }
 
+PROPS["C17"] = {
+    "level": "exploration",
+    "rule": ("each run draws carrier x security x closer (application or target) x payload written before the close (0 bytes .. tier cap, boundary sizes) x write partition x "
+             "whether the other side writes too x 0-2 background connections x socket-buffer bound x delivery chunking; the close is an ordinary driver event, so it races the "
+             "last write's frames, the FIN and the opposite direction freely; non-trivial = the close took effect and the other end's outcome was judged; distinct = schedule shapes"),
+    "probes": ["closes_observed", "clean_eof", "fault_segmentation"],
+    "technique": "deterministic simulation: seeded search over close/last-write/FIN orderings per carrier, all-bytes-then-EOF oracle with bounded termination",
+    "level_text": ("Seeded exploration: the non-closing end must read exactly the PRF stream the closer wrote and then end-of-stream, within 10 simulated minutes (30 over DNS) and never "
+                   "sit 90 s with nothing deliverable; a shorter stream, an error instead of end-of-stream, or no termination are distinct rules."),
+    "level_note": "Socket model: data and FIN sent before a reset are delivered in order and a reader that has the FIN sees end-of-stream (Linux semantics). Full close only (socketace has no half-close).",
+    "tiers": {
+        "quick": {"runs": 2000, "chunk": 125, "shrink_s": 40},
+        "thorough": {"runs": 60000, "chunk": 250, "shrink_s": 120},
+    },
+}
+
 PENDING = "check under construction in this round; see DESIGN.md section 5 for the planned simulation"
 NOT_APPLICABLE = [
     {"property_id": "C08", "reason": "pure function of one byte string (codec Encode/Decode): no schedule, clock, fault or second party for a simulator to control; see DESIGN.md section 6"},
